@@ -40,7 +40,7 @@ Reset ==
   /\ content' = Fresh /\ pend' = <<>> /\ l' = l + 1
 
 Skip ==
-  /\ l <= Len(Trace) /\ Ev.ev \notin {"Reset", "LCall", "LRet"}
+  /\ l <= Len(Trace) /\ Ev.ev \notin {"Reset", "LCall", "LRet", "LHang"}    \* LHang (an operation never returned) matches no action: the search stops there
   /\ l' = l + 1 /\ UNCHANGED <<content, pend>>
 
 Call ==
@@ -58,6 +58,7 @@ Lin(g) ==
 Ret ==
   /\ l <= Len(Trace) /\ Ev.ev = "LRet" /\ Ev.g \in DOMAIN pend
   /\ pend[Ev.g].lin /\ pend[Ev.g].res = Ev.res       \* enabled only if the logged result is the computed one
+  /\ Ev.err = ""                                     \* ... and the operation (within the file's extent) succeeded
   /\ pend' = Del(pend, Ev.g)
   /\ l' = l + 1 /\ UNCHANGED content
 
